@@ -475,3 +475,53 @@ fn c17_driver_runs_kept_args() {
     std::mem::forget(shared);
     std::mem::forget(painter);
 }
+
+// (A cell driving the real `Divan::run_action` with one registered entry - to decide that the tree walk receives
+// the *requested* action - was tried twice (with and without EntryTree::retain / sort_by_attr stubbed) and did not
+// finish in 2400 s / 1500 s: `module_path.split("::")` (two-way string searcher), `max_name_span` and the tree
+// construction are in the query. Seeded change C14-A (run_tree(self.action, ..)) is therefore not caught.)
+
+// (Two cells on `run_tree_list` - terse listing prints one line per kept case, with a symbolic and with a concrete
+// subset of kept runtime arguments, `_print` stubbed to a line counter - were tried and did not finish in 1800 s
+// (7.5 GB): the terse lister stays outside the claim; seeded change C14-B is not caught.)
+
+static TLIST2: [usize; 3] = [0, 1, 3];
+
+// @cell props=C15 tier=quick kind=core timeout=1800 mem=20 cls=K
+// @desc concrete witness for the same code (kept cheap on purpose: reordering sort/dedup makes the symbolic cell
+// @desc above run into ipnsort on a symbolic length): threads = [0, 1, 3] with available parallelism 3 is entered
+// @desc for t=1 and t=3 only
+#[kani::proof]
+#[kani::unwind(5)]
+#[kani::stub(std::io::_print, print_stub)]
+#[kani::stub(std::io::_eprint, print_stub)]
+#[kani::stub(alloc::fmt::format, format_stub)]
+#[kani::stub(crate::util::known_parallelism, known_parallelism_stub)]
+#[kani::stub(crate::tree_painter::TreePainter::start_leaf, p_start_leaf)]
+#[kani::stub(crate::tree_painter::TreePainter::finish_empty_leaf, p_finish_empty)]
+#[kani::stub(crate::tree_painter::TreePainter::ignore_leaf, p_ignore_leaf)]
+#[kani::stub(crate::tree_painter::TreePainter::start_parent, p_start_parent)]
+#[kani::stub(crate::tree_painter::TreePainter::finish_parent, p_finish_parent)]
+#[kani::stub(crate::tree_painter::TreePainter::finish_leaf, p_finish_leaf)]
+#[kani::stub(std::hash::RandomState::new, rs_stub)]
+fn c15_thread_counts_non_adjacent_duplicate() {
+    let entry = BenchEntry {
+        meta: EntryMeta { display_name: "b", raw_name: "b", module_path: "m", location: LOC, bench_options: None },
+        bench: BenchEntryRunner::Plain(bench_rec_threads),
+    };
+    let d = Divan::default();
+    let entry_opts = BenchOptions { threads: Some(Cow::Borrowed(&TLIST2[..])), ..Default::default() };
+    let shared = SharedContext { action: Action::Test, timer: Timer::Os, thread_pool: ThreadPool::new() };
+    let painter = RefCell::new(TreePainter::new(0, [0; TreeColumn::COUNT]));
+    d.run_bench_entry(Action::Test, AnyBenchEntry::Bench(&entry), None, &shared, Some(&entry_opts), &painter, kani::any());
+    unsafe {
+        assert_eq!(TG.n, 2);
+        assert_eq!(TG.tc[0], 1);
+        assert_eq!(TG.tc[1], 3);
+    }
+    kani::cover!(true);
+    std::mem::forget(d);
+    std::mem::forget(entry);
+    std::mem::forget(shared);
+    std::mem::forget(painter);
+}
